@@ -12,10 +12,13 @@ type lgor struct {
 	back     chan struct{} // where this goroutine yields to: set by whoever resumed it last
 	parkedOn string
 	done     bool
+	idle     bool // ended waiting for a channel or condition (not an error)
 	abort    bool
 	panicVal interface{}
 	ctx      gctx
 }
+
+type gorIdle struct{ msg string }
 
 type gctx struct {
 	depth     int
@@ -40,7 +43,7 @@ func (m *Machine) curGid() int {
 }
 
 // spawnLogical starts fn and runs it until it finishes or parks.
-func (m *Machine) spawnLogical(fn Value) {
+func (m *Machine) spawnLogical(body func()) {
 	g := &lgor{id: len(m.gors) + 1, resume: make(chan struct{})}
 	m.gors = append(m.gors, g)
 	saved := m.saveCtx()
@@ -50,13 +53,17 @@ func (m *Machine) spawnLogical(fn Value) {
 	go func() {
 		defer func() {
 			if r := recover(); r != nil {
-				g.panicVal = r
+				if _, idle := r.(gorIdle); idle {
+					g.idle = true
+				} else {
+					g.panicVal = r
+				}
 			}
 			g.done = true
 			g.back <- struct{}{}
 		}()
 		<-g.resume
-		m.callValue(fn, nil, nil)
+		body()
 	}()
 	m.run(g)
 	m.cur = prev
